@@ -28,5 +28,13 @@ smems_edits = [
  ('                        *match_len >= l\n', '//@rw R37\n//@<                        match_len >= &l\n                        *match_len >= l\n//@>\n'),
  ('            swap(curr, prev);\n        } }\n', '            swap(curr, prev);\n//@rw R35t\n//@<        }\n        } }\n//@>\n'),
 ]
+all_edits = [
+ ('    pub fn all_smems(&self, pattern: &[u8], l: usize) -> (res: Vec<(BiInterval, usize, usize)>)',
+  '    pub fn all_smems(&self, pattern: &[u8], l: usize) -> /*@+(res:@*/ Vec<(BiInterval, usize, usize)>/*@+)@*/'),
+ ('        let mut i0: usize = 0;', '//@rw RTY usize\n//@<        let mut i0 = 0;\n        let mut i0: usize = 0;\n//@>'),
+ ('            for (_, p, l) in it: curr_smems.iter()', '            for (_, p, l) in /*@+it:@*/ curr_smems.iter()'),
+]
+def extra_regions():
+    return region('/tmp/k/all_smems_spike.rs', 'all_smems', all_edits)
 if __name__ == '__main__':
     print(region('/tmp/k/smems_spike.rs', 'smems', smems_edits))
